@@ -245,8 +245,13 @@ func GenRandom(seed int64, n int) []Row {
 		case p < 9 && backend == "sqlite":
 			conf = "nodb"
 		}
+		spell := "exact"
+		if rng.Intn(100) < 6 {
+			spell = pick(rng, []string{"trail_space", "lead_space", "trail_tab", "trail_newline", "lead_newline", "both_space", "crlf", "nbsp",
+				"upper", "title", "dash", "dot_prefix"})
+		}
 		b, _ := json.Marshal(a)
-		rows = append(rows, Row{ID: fmt.Sprintf("rnd-%d-%05d", seed, i), Tool: tool, Role: c.role, Mut: c.mut, Rc: c.rc, Principal: c.principal,
+		rows = append(rows, Row{ID: fmt.Sprintf("rnd-%d-%05d", seed, i), Tool: tool, Spell: spell, Role: c.role, Mut: c.mut, Rc: c.rc, Principal: c.principal,
 			Actor: "absent", Shape: "random", Lab: Lab{Path: "none", Pid: "none", Actor: "absent", Mode: "none", Wire: wire, Backend: backend, Conf: conf}, ArgsTpl: string(b), Health: health})
 	}
 	return rows
